@@ -1,6 +1,6 @@
 (* C15 — Codecs round-trip, and key encodings preserve SQL order.
    This file contains only the property theorems, each closed by `exact`. *)
-From V Require Import Store.Codec Store.CodecRoundtrip SQL.KeyEnc SQL.KeyEncLemmas SQL.KeyEncProofs.
+From V Require Import Store.Codec Store.CodecRoundtrip Store.ProtoConv Store.ProtoConvProofs SQL.KeyEnc SQL.KeyEncLemmas SQL.KeyEncProofs.
 
 (* ---------------- store codecs ---------------- *)
 
@@ -168,3 +168,68 @@ Theorem C15_value_decode_encode_refuted_nullable_empty :
   exists enc, enc_val TVarchar 0 true (VStr []) = Ok enc /\ dec_val TVarchar true enc = Ok (VNull, 4).
 Proof. exact val_decode_encode_refuted_nullable_empty. Qed.
 Print Assumptions C15_value_decode_encode_refuted_nullable_empty.
+
+(* ---------------- protocol conversions (pkg/api/schema/database_protoconv.go) ---------------- *)
+
+(* PROTOCOL ROUND TRIP, transaction header: for every header with 32-byte hashes, Version and
+   NEntries below 2^31 (the message fields are int32) and metadata as its setters can build it
+   (truncation id >= 1, extra payload of 1..maxExtraLen bytes, or none), TxHeaderFromProto of
+   TxHeaderToProto gives back every field; nothing else is assumed (any id, ts, BlTxID). *)
+Theorem C15_txhdr_proto_roundtrip : forall h : txhdr,
+  txhdr_proto_ok h = true -> txhdr_from_proto (txhdr_to_proto h) = h.
+Proof. exact txhdr_proto_roundtrip. Qed.
+Print Assumptions C15_txhdr_proto_roundtrip.
+
+(* ... hence the header a client rebuilds from the message serialises to the bytes the server
+   hashed (same Alh), and two different headers never share a message. *)
+Theorem C15_txhdr_proto_same_bytes : forall h : txhdr,
+  txhdr_proto_ok h = true -> txhdr_bytes (txhdr_from_proto (txhdr_to_proto h)) = txhdr_bytes h.
+Proof. exact txhdr_proto_same_bytes. Qed.
+Print Assumptions C15_txhdr_proto_same_bytes.
+
+Theorem C15_txhdr_to_proto_injective : forall h1 h2 : txhdr,
+  txhdr_proto_ok h1 = true -> txhdr_proto_ok h2 = true ->
+  txhdr_to_proto h1 = txhdr_to_proto h2 -> h1 = h2.
+Proof. exact txhdr_to_proto_inj. Qed.
+Print Assumptions C15_txhdr_to_proto_injective.
+
+(* Transaction metadata, both directions: store value -> message -> store value on the setters'
+   domain, and message -> store value -> message for every message whose extra payload is within
+   the limit; whatever message arrives, the converted metadata lies in the lossless domain. *)
+Theorem C15_txmd_proto_roundtrip : forall m : txmd,
+  txmd_proto_ok m = true -> txmd_from_proto (txmd_to_proto m) = m.
+Proof. exact txmd_proto_roundtrip. Qed.
+Print Assumptions C15_txmd_proto_roundtrip.
+
+Theorem C15_txmd_proto_roundtrip_rev : forall p : p_txmd,
+  len (pt_extra p) <=? st_maxExtraLen = true ->
+  txmd_to_proto (txmd_from_proto p) = p /\ txmd_proto_ok (txmd_from_proto p) = true.
+Proof. intros p H. split; [exact (txmd_proto_roundtrip_rev p H) | exact (from_proto_always_valid p)]. Qed.
+Print Assumptions C15_txmd_proto_roundtrip_rev.
+
+(* Entry metadata and transaction entries: every combination of deleted / expiration /
+   non-indexable survives in both directions; an entry with a 32-byte value hash and a value
+   length below 2^31 survives TxEntryToProto followed by the per-entry part of TxFromProto. *)
+Theorem C15_kvmd_proto_roundtrip : forall (m : kvmd) (p : p_kvmd),
+  kvmd_from_proto (kvmd_to_proto m) = m /\ kvmd_to_proto (kvmd_from_proto p) = p.
+Proof. intros m p. split; [exact (kvmd_proto_roundtrip m) | exact (kvmd_proto_roundtrip_rev p)]. Qed.
+Print Assumptions C15_kvmd_proto_roundtrip.
+
+Theorem C15_entry_proto_roundtrip : forall e : s_entry,
+  entry_proto_ok e = true -> entry_from_proto (entry_to_proto e) = e.
+Proof. exact entry_proto_roundtrip. Qed.
+Print Assumptions C15_entry_proto_roundtrip.
+
+(* Outside the setters' domain the metadata statement is FALSE on the code as it is:
+   TxMetadata.ReadFrom accepts a truncation attribute holding id 0 and an extra attribute with an
+   empty payload (so ReplicateTx stores such headers), and the conversion drops either attribute,
+   so the metadata - and the header bytes a client hashes - differ from what the server holds. *)
+Theorem C15_txmd_proto_roundtrip_refuted_degenerate :
+  (exists m : txmd, txmd_read degenerate_trunc_bytes = Ok m /\
+             txmd_from_proto (txmd_to_proto m) <> m /\
+             txmd_bytes (txmd_from_proto (txmd_to_proto m)) <> txmd_bytes m) /\
+  (exists m : txmd, txmd_read degenerate_extra_bytes = Ok m /\
+             txmd_from_proto (txmd_to_proto m) <> m /\
+             txmd_bytes (txmd_from_proto (txmd_to_proto m)) <> txmd_bytes m).
+Proof. split; [exact txmd_proto_roundtrip_refuted_trunc0 | exact txmd_proto_roundtrip_refuted_extra_empty]. Qed.
+Print Assumptions C15_txmd_proto_roundtrip_refuted_degenerate.
